@@ -562,6 +562,8 @@ impl DrawState {
         // accurately reflect the number of lines that have been displayed on the terminal, if the
         // full height exceeds the terminal height.
         let mut real_height = VisualLines::default();
+        // Height and width (in columns) of the last line that was actually printed
+        let mut last_printed = None;
 
         for (idx, line) in self.lines.iter().enumerate() {
             let line_height = line.wrapped_height(term_width);
@@ -590,23 +592,36 @@ impl DrawState {
             }
 
             term.write_str(line.as_ref())?;
+            let mut line_width = line.console_width();
 
-            if idx == 0 && self.lines.len() > 1 && line.console_width() == 0 {
+            if idx == 0 && line_width == 0 {
                 // The cursor may still sit at the right edge of the last line of the previous
                 // draw. A first line without visible characters does not make the terminal wrap
                 // to the next row by itself, so print a blank to take up this line's row.
                 term.write_str(" ")?;
+                line_width += 1;
             }
 
-            if idx + 1 == self.lines.len() {
-                // For the last line of the output, keep the cursor on the right terminal
-                // side so that next user writes/prints will happen on the next line
-                let last_line_filler = line_height.as_usize() * term_width - line.console_width();
-                term.write_str(&" ".repeat(last_line_filler))?;
-            }
+            last_printed = Some((line, line_height, line_width));
         }
 
-        if !self.lines.is_empty() {
+        // For the last line of the output, keep the cursor on the right terminal side so that next
+        // user writes/prints will happen on the next line. This is also needed after a text line
+        // that ends the output because not a single bar fits the terminal height: nothing would
+        // erase (and thereby terminate) that line before the next draw.
+        match last_printed {
+            Some((line, line_height, line_width))
+                if self.lines.last().is_some_and(|last| std::ptr::eq(last, line))
+                    || !matches!(line, LineType::Bar(_)) =>
+            {
+                let last_line_filler =
+                    (line_height.as_usize() * term_width).saturating_sub(line_width);
+                term.write_str(&" ".repeat(last_line_filler))?;
+            }
+            _ => {}
+        }
+
+        if last_printed.is_some() {
             self.cursor_below = false;
         } else if *bar_count > VisualLines::default() {
             self.cursor_below = true;
@@ -614,7 +629,7 @@ impl DrawState {
 
         if !shifted {
             // No bars were printed: the blank lines go below the text lines (if any)
-            if !self.lines.is_empty() {
+            if last_printed.is_some() {
                 term.write_line("")?;
             }
             for _ in 0..shift.as_usize() {
